@@ -4,8 +4,8 @@
      labels_guard      the label texts are unambiguous (known finding label-collision-name-digits outside it)
      imm_guard_a64     a type declares at most 1024 xtors (`ADD Xt, Xt, #4k`: a real limit of the back end), a
                        Substitute lists at most 4096 pairs; this also gives tags_i64
-     reach_guard_a64   28 + 85 * cg_bound_defs < 262143 instructions: every B.cond / ADR target within +-1 MiB (a real
-                       limit of the back end), and the code fits the image (code_small)
+     reach_guard_a64   28 + cg_fine_defs 14 74 < 262143 instructions (two-weight size bound, Proof/SizeA64Fine.v): every
+                       B.cond / ADR target within +-1 MiB (a real limit of the back end), and the code fits the image
    `calls_guard` follows from the linear discipline (Proof/X86WfCor.lin_check_calls_guard). *)
 From Coq Require Import List ZArith NArith String Bool Lia.
 From SCC Require Import Base.Sexp Lang.AxSyn Sem.AxSem Sem.AxHeap Model.Backend Model.A64 Sem.A64Sem Sem.A64Wf
@@ -36,7 +36,7 @@ Proof.
   intros LIN ANN EE PN PT LI LG IG RG XC.
   apply (a64_codegen_simulates p lc cs n lc' args fuel o LIN ANN EE PN PT LI (imm_guard_tags p IG) XC).
   - exact (a64_compile_asm_wf p lc cs n lc' LG LIN PN PT IG RG XC).
-  - exact (a64_compile_code_small p lc cs n lc' LIN (reach_size_guard p RG) XC).
+  - exact (a64_compile_code_small_reach p lc cs n lc' LIN RG XC).
 Qed.
 
 Corollary a64_codegen_correct_linearized_wf a lc cs n lc' args fuel o :
@@ -52,7 +52,7 @@ Proof.
   intros OK EE PN PT LI LG IG RG XC. pose proof (linearize_exact a OK) as LIN.
   apply (a64_codegen_correct_linearized a lc cs n lc' args fuel o OK EE PN PT LI (imm_guard_tags _ IG) XC).
   - exact (a64_compile_asm_wf _ lc cs n lc' LG LIN PN PT IG RG XC).
-  - exact (a64_compile_code_small _ lc cs n lc' LIN (reach_size_guard _ RG) XC).
+  - exact (a64_compile_code_small_reach _ lc cs n lc' LIN RG XC).
 Qed.
 
 (* the hypotheses are satisfiable: the two heap examples of C07 and the linearized stage outputs of the five example
